@@ -111,6 +111,14 @@ def c06Holds (E : ReEnv) (cfg : Cfg) (e : Entry) (sr : SReq) (o : Obs) : Bool :=
   | none => (userEvents cfg.customErr o.log).isEmpty
   | some (fs, t, cx) => (userEvents cfg.customErr o.log).map blind == (userEvents cfg.customErr (chainLog fs t cx).1).map blind
 
+/-- C06, last sentence ("for requests that fail routing, the container filters still run once around
+    the error response and no service or route filter runs"), on an observation of a request that the
+    installed `RouteSelector` refused with an error that is not a `ServiceError`: the user-code events
+    are those of the container filters around a target that records nothing (no service-error writer
+    runs for such an error, not even one the application installed) -/
+def c06RouterErrorHolds (cfg : Cfg) (o : Obs) : Bool :=
+  (userEvents false o.log).map blind == (userEvents false (chainLog (label .cfilter cfg.cfilters) routerErrorTarget {}).1).map blind
+
 /-- the same configuration with every content-coding switch off -/
 def noCoding (cfg : Cfg) : Cfg :=
   { cfg with encoding := false, routes := cfg.routes.map (fun r => { r with enc := none }) }
